@@ -650,13 +650,26 @@ func inFindStringSubmatch(m *Machine, fn *ssa.Function, a []Value) Value {
 		var forced *Term
 		out[i] = &Native{Kind: "lazy-capture", Force: func() *Term {
 			if forced == nil {
-				d, err := DecomposeWanted(re.Pattern, s, m.freshVar, map[string]bool{name: true})
+				// smallest bound on the subject's length (the greedy look-ahead is unrolled that far)
+				bound := -1
+				for _, k := range []int{2, 4, 6, 8, 10, 12, 16, 20, 24} {
+					if k > m.Cfg.MaxStrLen+8 {
+						break
+					}
+					if m.feasible(Gt(Len(s), IntT(int64(k)))) == Unsat {
+						bound = k
+						break
+					}
+				}
+				if bound < 0 {
+					m.Res.UnwindChecks++
+					unsupported("UNWIND-INSUFFICIENT: regexp subject has no length bound <= %d on this path", m.Cfg.MaxStrLen+8)
+				}
+				d, err := DecomposeBounded(re.Pattern, s, m.freshVar, map[string]bool{name: true}, bound)
 				if err != nil {
 					unsupported("regexp captures: %v", err)
 				}
-				if !m.captureUniqueGlobally(re, name) {
-					m.captureUniqueOnPath(re, s, name)
-				}
+				m.captureLog = append(m.captureLog, captureRec{re: re, subject: s, name: name, capture: d.Captures[name]})
 				m.assume(d.Constraint)
 				forced = d.Captures[name]
 			}
@@ -675,10 +688,10 @@ var (
 func (m *Machine) twoDecomps(re *Regex, name, tagA, tagB string, subj *Term) (*Decomp, *Decomp) {
 	mk := func(tag string) *Decomp {
 		n := 0
-		d, err := DecomposeWanted(re.Pattern, subj, func(p string, so Sort) *Term {
+		d, err := DecomposeBounded(re.Pattern, subj, func(p string, so Sort) *Term {
 			n++
 			return VarT(fmt.Sprintf("uq%s_%s_%d", tag, sanitizeName(p), n), so)
-		}, map[string]bool{name: true})
+		}, map[string]bool{name: true}, m.Cfg.MaxStrLen+2)
 		if err != nil {
 			unsupported("regexp captures: %v", err)
 		}
@@ -698,7 +711,7 @@ func (m *Machine) captureUniqueGlobally(re *Regex, name string) bool {
 	}
 	subj := VarT("uq_subject", SString)
 	d1, d2 := m.twoDecomps(re, name, "a", "b", subj)
-	q := []*Term{Le(Len(subj), IntT(int64(m.Cfg.MaxStrLen+4))), d1.Constraint, d2.Constraint, Not(Eq(d1.Captures[name], d2.Captures[name]))}
+	q := []*Term{Le(Len(subj), IntT(int64(m.Cfg.MaxStrLen+2))), d1.Constraint, d2.Constraint, Not(Eq(d1.Captures[name], d2.Captures[name]))}
 	r := m.Solver.Check(q)
 	uniqCache[key] = r == Unsat
 	return r == Unsat
